@@ -243,6 +243,23 @@ struct transition_table_impl
             auto& source = sm.template get_state<current_state_type>();
             auto& target = sm.template get_state<next_state_type>();
 
+            // A transition leaving an exit point can only be taken
+            // while this exit point is active in its submachine.
+            if constexpr (has_exit_pseudostate_be_tag<typename Row::Source>::value)
+            {
+                constexpr auto exit_point_id =
+                    current_state_type::template get_state_id<typename Row::Source>();
+                bool exit_point_active = false;
+                for (const auto active_state_id : source.get_active_state_ids())
+                {
+                    exit_point_active |= (active_state_id == exit_point_id);
+                }
+                if (!exit_point_active)
+                {
+                    return process_result::HANDLED_FALSE;
+                }
+            }
+
             if (!call_guard_or_true<Row, HasGuard>(sm, event, source, target))
             {
                 // guard rejected the event, we stay in the current one
